@@ -116,6 +116,22 @@ def run(prog, rule="R-NEVERSET"):
         elif k == "il":
             for a in t[1]:
                 visit(a, f, loc)
+    # objects defined with an initialiser (static tables, `T x = {...}`) are written as a whole by their initialiser
+    for gname, gl in prog.globals.items():
+        for g in gl:
+            if g.get("init") is not None:
+                t = (g.get("ctype") or g.get("type") or "").replace("const ", "").replace("struct ", "")
+                t = t.split("[")[0].replace("*", "").strip()
+                if t in prog.records:
+                    whole.add(t)
+    for f in prog.funcs.values():
+        for b, i, e in f.elements(live_only=False):
+            if e[0] == "D":
+                for n2, init in e[1]:
+                    if init is not None and isinstance(init, list) and init and init[0] == "il":
+                        r = rec_of_type((f.ltypes.get(n2) or "").split("[")[0])
+                        if r:
+                            whole.add(r)
     for f in prog.funcs.values():
         for b, i, e in f.elements(live_only=False):
             live = f.live is None or b["id"] in f.live
